@@ -734,3 +734,75 @@ def check_order_free(ctx, quals=(f"{EM}.EmulsionTimeCourse.get_emulsion", f"{EM}
         bad = [c for c in ast.walk(fi.node) if isinstance(c, ast.Call) and (dotted(c.func) or "").split(".")[-1] in BANNED]
         ctx.decide(not bad, "ORDERFREE", q, (fi, bad[0]) if bad else fi, "no binary search / sortedness assumption over the members",
                    f"`{U(bad[0])[:60] if bad else ''}` presupposes sorted members: for a collection whose times are not monotonic (explicit out-of-order times, re-glued slices) the query no longer equals its definition over the members")
+
+
+def check_copy_total(ctx, rule="COPYALL"):
+    """Emulsion.copy() with its defaults keeps every member: each filter on the way compares
+    a member quantity with a defaulted parameter, and the default must make the filter vacuous
+    for all radii ≥ 0 (readers of time courses and EmulsionTimeCourse.append copy frames with
+    the defaults; a zero-radius droplet must survive)."""
+    m = ctx.model
+    fi = m.func(f"{EM}.Emulsion.copy")
+    fv = view(m, fi)
+    site = fi.qualname + ":default-filter"
+    tests = []
+    for n in ast.walk(fi.node):
+        if isinstance(n, ast.comprehension):
+            tests += [(n, t) for t in n.ifs]
+        elif isinstance(n, ast.If) and any(isinstance(x, (ast.Continue,)) or (isinstance(x, ast.Expr) and "append" in U(x)) for x in ast.walk(n)):
+            tests.append((n, n.test))
+    if not tests:
+        ctx.hold(rule, site, fi, "Emulsion.copy does not filter members")
+        return
+    verdict, where, msg = True, None, ""
+    for holder, t in tests:
+        cp = compare_parts(t) if isinstance(t, ast.Compare) else None
+        if cp is None:
+            verdict, where, msg = None, t, f"filter `{U(t)[:50]}` not understood"
+            break
+        l, op, r = cp
+        if U(r) in fi.params and U(l).endswith(".radius"):
+            p, strict_keep = U(r), isinstance(op, ast.Gt)
+            keep_ops = (ast.Gt, ast.GtE)
+        elif U(l) in fi.params and U(r).endswith(".radius"):
+            p, strict_keep = U(l), isinstance(op, ast.Lt)
+            keep_ops = (ast.Lt, ast.LtE)
+        else:
+            verdict, where, msg = None, t, f"filter `{U(t)[:50]}` not understood"
+            break
+        if not isinstance(op, keep_ops):
+            verdict, where, msg = None, t, f"filter `{U(t)[:50]}` not understood"
+            break
+        d = fi.default_of(p)
+        val = None
+        if isinstance(d, ast.Constant) and isinstance(d.value, (int, float)):
+            val = d.value
+        elif isinstance(d, ast.UnaryOp) and isinstance(d.op, ast.USub) and isinstance(d.operand, ast.Constant):
+            val = -d.operand.value
+        elif d is not None and U(d) in ("-np.inf", "-math.inf", "float('-inf')"):
+            val = float("-inf")
+        if val is None:
+            verdict, where, msg = None, t, f"default of `{p}` is not a number"
+            break
+        vac = val < 0 if strict_keep else val <= 0
+        if not vac:
+            verdict, where = False, t
+            msg = (f"Emulsion.copy() keeps a member only if `{U(t)}` and `{p}` defaults to {val}: a droplet of radius 0 is dropped by a plain copy "
+                   "(EmulsionTimeCourse.append and the file reader copy frames with the defaults, so a stored frame loses its vanished droplets)")
+            break
+        where = t
+    if verdict is True:
+        ctx.hold(rule, site, (fi, where), "with the default bound every member (radius ≥ 0) passes the filter of Emulsion.copy")
+    elif verdict is False:
+        ctx.violate(rule, site, (fi, where), msg)
+    else:
+        ctx.undecided(rule, site, (fi, where), msg)
+    # callers on the storage path pass no bound
+    for q in (f"{EM}.EmulsionTimeCourse.append",):
+        ci = m.func(q)
+        cv = view(m, ci)
+        calls = [c for c in cv.calls() if isinstance(c.func, ast.Attribute) and c.func.attr == "copy" and isinstance(c.func.value, ast.Name) and c.func.value.id != "self"]
+        bad = [c for c in calls if c.args or c.keywords]
+        if calls:
+            ctx.decide(not bad, rule, q + ":copy-args", (ci, (bad or calls)[0]), "frames are copied with the default (vacuous) bound",
+                       f"`{U(bad[0]) if bad else ''}` filters the members of a frame while it is stored")
